@@ -56,6 +56,20 @@ CHECKS = {
         technique="TLA+ byte-level decoder state machine explored by TLC; every explored input replayed into the real decoder",
         engine="tlc+vh",
     ),
+    "C04": dict(
+        category="model_checking",
+        text="DagJson.tla states DAG-JSON at token level from its specification (EncJ with bytewise key order and the two "
+             "reserved forms, the decoder with its recognition of those forms, Reserved). TLC evaluates it over a bounded "
+             "domain, proves on it that the round trip preserves value and kinds exactly when no reserved shape occurs, and "
+             "emits (value, token sequence, sorted value); the harness encodes each value under every insertion order in 4 "
+             "node implementations (byte identity = determinism), tokenises the output with the standard library and "
+             "compares with the specified tokens, and decodes it back comparing kinds and values.",
+        design_ref="DESIGN.md section 4, C04",
+        note="Scalar lexemes are outside TLA+ (class exploration through Go oracles); one known finding (integral floats); "
+             "trusted: TLC, encoding/json, encoding/base64, harness.",
+        technique="TLA+ token-level codec specification evaluated by TLC; one implementation test per value x insertion order x implementation",
+        engine="tlc+vh",
+    ),
     "C05": dict(
         category="model_checking",
         text="LinkOps.tla specifies the link of every Store/ComputeLink as a function of (prototype, value) only and loads as "
